@@ -1,14 +1,18 @@
 """C08 - jump/split yield non-overlapping streams: fixed stride, full period."""
 from . import common as C
 from .p_c01 import history
+from . import gen_chacha as G
+from .oracles import kv
 
 LEAN_MODULE = "Urandom.Props.C08"
 DISAGREEMENT_IS_FAILING_INPUT = True   # the model's jump is proved to be 2^128 (2^40) steps: impl != model ==> impl jump != fixed stride
 RULE = ("requests: word generators on unit states (each of the 256 single-bit Xoshiro states), edge and random seeds/states, with histories rich in jump and split ops "
         "interleaved with draws and fills; every output, every child draw and the final state are compared with the model, whose jump is proved equal to 2^128 / 2^40 single steps. "
+        "chacha: jump/split-rich histories on ChaCha8/12/20 from stream ids at the 32- and 64-bit carry boundaries (low word 0xffffffff, 2^64-1, ...), every output and the serde-visible "
+        "key/counter/stream/index compared with the model (jump proved = stream id + 1 mod 2^64); independent oracle: final stream id = initial + #jumps + #splits (mod 2^64), key unchanged. "
         "non-trivial = history contains a jump or split; distinct = distinct request line")
 TRUSTED = ["kernel evaluation (decide +kernel) of the GF(2) certificates: x^(2^128) mod P = JUMP, P(T)=0 on the 256 unit states, x^(2^256-1)=1 and one inverse certificate per prime factor; Pratt certificates via Mathlib lucas_primality"]
-ASSUMPTIONS = ["ChaCha jump/split is covered by C03 (stream id + 1, buffer invalidated)"]
+ASSUMPTIONS = ["that after a ChaCha jump nothing of the old stream is served (buffer invalidated) is C03's keystream-attribution oracle; here the stream id arithmetic and the outputs are checked against the model"]
 
 
 def generate(r, tier, build):
@@ -30,14 +34,49 @@ def generate(r, tier, build):
             reqs.append("word gen=xoshiro state=%s via=serde ops=%s" % (",".join(map(str, st)), ",".join(ops)))
         else:
             reqs.append("word gen=%s seed=%d via=from_seed ops=%s" % (gen, r.edge64(), ",".join(ops)))
+    # ChaCha: jump = stream id + 1 (64-bit), split = clone + jump
+    m = 150 if tier == "quick" else 5000
+    for _ in range(m):
+        kk, c, N = G.key(r), G.counter(r), G.rounds(r)
+        s = r.choice([0, (1 << 32) - 1, (1 << 32) - 2, (1 << 64) - 1, (1 << 64) - 2, ((r.bits(32)) << 32) | 0xFFFFFFFF, ((r.bits(32)) << 32) | 0xFFFFFFFE, r.u64()])
+        ops = []
+        for _ in range(1 + r.below(14)):
+            k = r.below(10)
+            ops.append("jump" if k < 3 else "split" if k < 6 else r.choice(["u32", "u64", "f64", "fill:%d" % G.fill_len(r), "clone"]))
+        if not any(o in ("jump", "split") for o in ops):
+            ops.insert(r.below(len(ops) + 1), r.choice(["jump", "split"]))
+        ops.append("u64")
+        reqs.append("chacha n=%d key=%s ctr=%d str=%d ops=%s" % (N, ",".join(map(str, kk)), c, s, ",".join(ops)))
     return reqs
+
+
+def oracle(req, impl, build):
+    """ChaCha: the stream id the generator ends on is the initial one plus the number of jumps and splits (mod 2^64); the key is untouched.
+    Read from the serde-visible state; independent of the model."""
+    if not req.startswith("chacha "):
+        return None
+    d = kv(req)
+    ops = d["ops"].split(",")
+    st = [t for t in impl.split() if t.startswith("st:")]
+    if not st:
+        return None
+    w = [int(x) for x in st[-1][3:].split(",")]
+    want = (int(d["str"]) + sum(1 for o in ops if o in ("jump", "split"))) % (1 << 64)
+    got = w[10] | (w[11] << 32)
+    if got != want:
+        return "after %d jump/split ops from stream id %d the generator is on stream id %d, not %d" % (sum(1 for o in ops if o in ("jump", "split")), int(d["str"]), got, want)
+    if w[:8] != [int(x) for x in d["key"].split(",")]:
+        return "jump/split changed the key"
+    return None
 
 
 def corpus(build):
     return ["word gen=xoshiro state=0,0,0,0 via=serde ops=jump,u64,split,u64",
             "word gen=splitmix seed=0 via=from_seed ops=jump,jump,u64,split,u64",
-            "word gen=wyrand seed=18446744073709551615 via=from_seed ops=split,split,split,u64"]
+            "word gen=wyrand seed=18446744073709551615 via=from_seed ops=split,split,split,u64",
+            "chacha n=8 key=0,0,0,0,0,0,0,0 ctr=1 str=4294967295 ops=u64,jump,u64,split,u64",
+            "chacha n=20 key=1,2,3,4,5,6,7,8 ctr=0 str=18446744073709551615 ops=split,u64,jump,u32"]
 
 
 def classify(req, model):
-    return req.split()[1]
+    return "chacha" if req.startswith("chacha ") else req.split()[1]
